@@ -538,3 +538,301 @@ func c04V4DecodeExact(c *Ctx) bool {
 	c.check(true, rule, f, what, nil, "accepted set and decoded bytes equal the codec's for every text of 0..18 bytes")
 	return true
 }
+
+// c02PortNumberExact decides isUint16 exactly on non-empty texts of 1..7
+// bytes: true <=> every byte is a digit and the decimal value is at most 65535
+// (leading zeros allowed, as strconv.ParseUint(s, 10, 16) has it).  Emptiness
+// is the splitter's business; longer texts (where an accumulator could wrap)
+// are the business of the one-iteration rule C02.port.number.
+func c02PortNumberExact(c *Ctx) bool {
+	const rule = "C02.port.number-exact"
+	f := c.fn("netutil", "isUint16")
+	if f == nil || len(f.Params) != 1 {
+		return false
+	}
+	lengths := []int{1, 2, 3, 4, 5, 6, 7}
+	bads := make([]string, len(lengths))
+	errs := make([]error, len(lengths))
+	parallelDo(len(lengths), func(k int) {
+		L := lengths[k]
+		m := boolfn.New()
+		ev := &boolfn.Eval{M: m, Entered: map[string]bool{}, ErrorsAsBits: true, ForcePath: true, Steps: 1000000}
+		ev.InScope = core.InModule
+		in := ev.StringInput(0, L)
+		rs, err := ev.Call(f, []boolfn.Val{in})
+		if err != nil || len(rs) != 1 || rs[0].Kind != boolfn.KBits || len(rs[0].Bits) != 1 {
+			if err == nil {
+				err = fmt.Errorf("unexpected result shape")
+			}
+			errs[k] = err
+			return
+		}
+		eqByte := func(bits []int, v int) int {
+			eq := 1
+			for k := 0; k < 8; k++ {
+				bit := bits[k]
+				if (v>>uint(k))&1 == 0 {
+					bit = m.Not(bit)
+				}
+				eq = m.And(eq, bit)
+			}
+			return eq
+		}
+		digit := func(bits []int) int {
+			r := 0
+			for v := '0'; v <= '9'; v++ {
+				r = m.Or(r, eqByte(bits, int(v)))
+			}
+			return r
+		}
+		want := 1
+		for i := 0; i < L; i++ {
+			want = m.And(want, digit(in.Elems[i]))
+		}
+		// all but the last five digits are zeros, the last five at most 65535
+		first := 0
+		if L > 5 {
+			first = L - 5
+			for i := 0; i < first; i++ {
+				want = m.And(want, eqByte(in.Elems[i], '0'))
+			}
+		}
+		// lexicographic comparison of the (at most five) last digits with 65535
+		n := L - first
+		if n == 5 {
+			limit := "65535"
+			le := 1 // all equal so far => <=
+			for i := n - 1; i >= 0; i-- {
+				lt, eq := 0, eqByte(in.Elems[first+i], int(limit[i]))
+				for v := '0'; v < rune(limit[i]); v++ {
+					lt = m.Or(lt, eqByte(in.Elems[first+i], int(v)))
+				}
+				le = m.Or(lt, m.And(eq, le))
+			}
+			want = m.And(want, le)
+		}
+		if rs[0].Bits[0] != want {
+			d := m.Xor(rs[0].Bits[0], want)
+			kind := "rejected though it is a port number"
+			if x := m.And(rs[0].Bits[0], m.Not(want)); x != 0 {
+				d, kind = x, "accepted though strconv.ParseUint(s, 10, 16) rejects it"
+			}
+			bads[k] = sprintf("the text %s is %s", witnessName(m.Witness(d), L, L), kind)
+		}
+	})
+	for k, e := range errs {
+		if e != nil {
+			if os.Getenv("GSA_DBG") != "" {
+				fmt.Fprintln(os.Stderr, "exact isUint16: L =", lengths[k], e)
+			}
+			c.L.Notef("isUint16 is outside the exact evaluator's grammar at length %d (%v)", lengths[k], e)
+			return false
+		}
+	}
+	c.L.Floor(rule, 1)
+	what := "isUint16(s) <=> s is decimal digits with value <= 65535"
+	for _, b := range bads {
+		if b != "" {
+			c.check(false, rule, f, what, nil, b)
+			return true
+		}
+	}
+	c.check(true, rule, f, what, nil, sprintf("equal as Boolean functions for every text of %v bytes", lengths))
+	return true
+}
+
+// c05IndexExact decides the two scanners behind ExtractReversedAddr exactly:
+// indexFirstV6Label / indexFirstV4Label return where the longest label-aligned
+// run of address labels in front of the ARPA suffix starts.  Each is evaluated
+// on a valid, lowered domain name of L bytes ending in the suffix (the rest
+// free; no leading dot, no empty label — what ValidateDomainName has
+// established) and the returned index is compared, as a 64-bit function of
+// the bytes, with the definition: going left from the suffix, a label counts
+// while it is a single hex digit (a decimal octet) that starts the name or
+// follows a dot, at most 32 (4) of them.
+func c05IndexExact(c *Ctx) map[string]bool {
+	const rule = "C05.index-exact"
+	decided := map[string]bool{}
+	type spec struct {
+		fn, tail string
+		maxFree  int
+		v6       bool
+	}
+	maxV6 := 22
+	if c.Tier == "thorough" {
+		maxV6 = 70
+	}
+	specs := []spec{{"indexFirstV6Label", "ip6.arpa", maxV6, true}, {"indexFirstV4Label", "in-addr.arpa", 20, false}}
+	nOK := 0
+	for _, sp := range specs {
+		f := c.fn("netutil", sp.fn)
+		if f == nil || len(f.Params) != 1 {
+			continue
+		}
+		nt := len(sp.tail)
+		var lengths []int
+		for n := 0; n <= sp.maxFree; n++ {
+			if n == 1 {
+				continue // a single free byte would have to be the dot: an empty label
+			}
+			lengths = append(lengths, nt+n)
+		}
+		bads := make([]string, len(lengths))
+		errs := make([]error, len(lengths))
+		parallelDo(len(lengths), func(k int) {
+			L := lengths[k]
+			n := L - nt
+			m := boolfn.New()
+			ev := &boolfn.Eval{M: m, Entered: map[string]bool{}, ErrorsAsBits: true, ForcePath: true, Steps: 3000000}
+			ev.InScope = core.InModule
+			in := ev.StringInput(0, L)
+			for i := 0; i < nt; i++ {
+				in.Elems[n+i] = ev.Const(int64(sp.tail[i]), 8, false).Bits
+			}
+			if n > 0 {
+				in.Elems[n-1] = ev.Const('.', 8, false).Bits
+			}
+			model := &netipModel{ev: ev, fresh: 1 << 20}
+			isByte := func(i int, v byte) int {
+				eq := 1
+				for b := 0; b < 8; b++ {
+					bit := in.Elems[i][b]
+					if (v>>uint(b))&1 == 0 {
+						bit = m.Not(bit)
+					}
+					eq = m.And(eq, bit)
+				}
+				return eq
+			}
+			pre := 1
+			for i := 0; i < n; i++ {
+				if i == 0 {
+					pre = m.And(pre, m.Not(isByte(0, '.')))
+				} else {
+					pre = m.And(pre, m.Not(m.And(isByte(i-1, '.'), isByte(i, '.'))))
+				}
+			}
+			ev.Assume = pre
+			rs, err := ev.Call(f, []boolfn.Val{in})
+			if err != nil || len(rs) != 1 || rs[0].Kind != boolfn.KBits {
+				if err == nil {
+					err = fmt.Errorf("unexpected result shape")
+				}
+				errs[k] = err
+				return
+			}
+			// the definition
+			type alt struct{ cond, idx int }
+			var alts []alt
+			if gerr := boolfn.Guard(func() {
+				if sp.v6 {
+					hexAt := func(i int) int {
+						r := 0
+						for v := 0; v < 256; v++ {
+							if hexValue(v) >= 0 {
+								r = m.Or(r, isByte(i, byte(v)))
+							}
+						}
+						return r
+					}
+					cond, idx := pre, n
+					for j := 1; j <= 32; j++ {
+						p := n - 2*j
+						if p < 0 {
+							break
+						}
+						valid := hexAt(p)
+						if p > 0 {
+							valid = m.And(valid, isByte(p-1, '.'))
+						}
+						if stop := m.And(cond, m.Not(valid)); stop != 0 {
+							alts = append(alts, alt{stop, idx})
+						}
+						cond = m.And(cond, valid)
+						idx = p
+						if cond == 0 {
+							break
+						}
+					}
+					if cond != 0 {
+						alts = append(alts, alt{cond, idx})
+					}
+				} else {
+					var rec func(idx, count, cond int)
+					rec = func(idx, count, cond int) {
+						if cond == 0 {
+							return
+						}
+						if count == 4 || idx == 0 {
+							alts = append(alts, alt{cond, idx})
+							return
+						}
+						e := idx - 1
+						taken := 0
+						for ln := 1; ln <= 3; ln++ {
+							s := e - ln
+							if s < 0 {
+								break
+							}
+							ok, _ := model.octet(in.Elems, s, e)
+							if s > 0 {
+								ok = m.And(ok, isByte(s-1, '.'))
+							}
+							cn := m.And(cond, ok)
+							taken = m.Or(taken, cn)
+							rec(s, count+1, cn)
+						}
+						if none := m.And(cond, m.Not(taken)); none != 0 {
+							alts = append(alts, alt{none, idx})
+						}
+					}
+					rec(n, 0, pre)
+				}
+			}); gerr != nil {
+				errs[k] = gerr
+				return
+			}
+			for _, a := range alts {
+				want := ev.Const(int64(a.idx), len(rs[0].Bits), true).Bits
+				for b := range want {
+					if d := m.And(a.cond, m.Xor(rs[0].Bits[b], want[b])); d != 0 {
+						bads[k] = sprintf("for the %d-byte name %s the address labels start at %d, not where the function says", L, witnessName(m.Witness(d), n, n)+"+"+sp.tail, a.idx)
+						return
+					}
+				}
+			}
+		})
+		unsup := false
+		for k, e := range errs {
+			if e != nil {
+				if os.Getenv("GSA_DBG") != "" {
+					fmt.Fprintln(os.Stderr, "exact", sp.fn, ": L =", lengths[k], e)
+				}
+				c.L.Notef("%s is outside the exact evaluator's grammar at length %d (%v)", sp.fn, lengths[k], e)
+				unsup = true
+				break
+			}
+		}
+		if unsup {
+			continue
+		}
+		decided[sp.fn] = true
+		nOK++
+		what := sp.fn + " returns the start of the longest label-aligned run of address labels"
+		bad := ""
+		for _, b := range bads {
+			if b != "" && bad == "" {
+				bad = b
+			}
+		}
+		if bad != "" {
+			c.check(false, rule, f, what, nil, bad)
+		} else {
+			c.check(true, rule, f, what, nil, sprintf("equal as functions of the bytes for every valid name of %d..%d bytes ending in %s", lengths[0], lengths[len(lengths)-1], sp.tail))
+		}
+	}
+	if nOK > 0 {
+		c.L.Floor(rule, nOK)
+	}
+	return decided
+}
